@@ -89,7 +89,7 @@ func vC08Gen(c *vh.Case) vC08Scn {
 
 func TestVerif_C08_fullrt(t *testing.T) {
 	vh.Run(t, vh.Spec{Prop: "C08", Unit: "fullrt", Quick: 800, Thorough: 30000, CostMs: 8,
-		Rule: "FullRT over a simulated network (1-30 crawled peers, K in {1,2,3,5,8,20}; 0-50% failing/silent/late); 1-14 provider ids (with or without addresses, the local node among them) spread over the responders' GET_PROVIDERS answers (overlapping, duplicates inside one answer) and the local provider store; count in {0,1,2,5,K}; FindProvidersAsync with an immediate consumer stamping every emission in virtual time (20% cancelled at a PRNG instant) or FindProviders; non-trivial = at least 2 answers carried providers and (count reached, or count 0 with at least 2 distinct providers); distinct by (shape, distribution, count, arrival order)",
+		Rule:    "FullRT over a simulated network (1-30 crawled peers, K in {1,2,3,5,8,20}; 0-50% failing/silent/late); 1-14 provider ids (with or without addresses, the local node among them) spread over the responders' GET_PROVIDERS answers (overlapping, duplicates inside one answer) and the local provider store; count in {0,1,2,5,K}; FindProvidersAsync with an immediate consumer stamping every emission in virtual time (20% cancelled at a PRNG instant) or FindProviders; non-trivial = at least 2 answers carried providers and (count reached, or count 0 with at least 2 distinct providers); distinct by (shape, distribution, count, arrival order)",
 		Clauses: []string{"yielded-was-reported", "at-most-count", "no-repeats", "no-request-after-count", "count0-complete", "channel-closed"}},
 		func(c *vh.Case) {
 			sc := vC08Gen(c)
